@@ -393,11 +393,17 @@ pub fn number_from_string(string: &str, rule: Rule) -> Result<Number> {
                 Number::BigInt(no_prefix.to_owned())
             }
         }
-        Rule::integer => Number::Integer(as_str),
+        // an integer literal that does not fit an int is a bigint, statically too.
+        Rule::integer if as_str.parse::<i32>().is_ok() => Number::Integer(as_str),
+        Rule::integer => Number::BigInt(as_str),
         Rule::hex_int => {
             let as_hex = i128::from_str_radix(&as_str[2..], 16)?.to_string();
 
-            Number::Integer(as_hex)
+            if as_hex.parse::<i32>().is_ok() {
+                Number::Integer(as_hex)
+            } else {
+                Number::BigInt(as_hex)
+            }
         }
         Rule::float => {
             if let Some(float_of_int) = as_str.strip_suffix(['F', 'f']) {
